@@ -1,9 +1,18 @@
-(* Properties/C13.v — "TransparentWrapper conversions are the identity on representation".  Thin by
-   nature (the conversions are bit copies of pointers and values under size/alignment assertions);
-   the assurance is mostly the allocgrid correspondence (addresses, lengths, vtables by dispatch,
-   bytes, drop counts, ledger).  The container forms reuse C09 (layout W = layout Inner). *)
+(* Properties/C13.v — "TransparentWrapper conversions are the identity on representation".
+   The C13_gen_* theorems are about the twenty default methods as the translator regenerates them
+   from src/transparent.rs and src/allocation.rs on every run (Gen/Transparent.v, Gen/Alloc.v):
+   under the trait's unsafe contract (same size, alignment and pointer-metadata kind) each returns
+   its argument unchanged; without it the guarding assertion panics before the conversion.  The
+   first five theorems are about the hand-written Model/Transparent.v the oracle runs (fat
+   pointers with explicit metadata).  Bytes, vtable dispatch, drop counts and the allocator ledger
+   are observed by the allocgrid correspondence run. *)
 From Coq Require Import NArith List Bool String.
-From BM Require Import Base.Outcome Base.Prims Model.Transparent Model.RcHist.
+From BM Require Import Base.Outcome Base.Prims Base.Own Model.Transparent Model.RcHist.
+From BM Require Proofs.TransparentGen.
+From BM.Gen Require Transparent Alloc.
+Module TG := BM.Proofs.TransparentGen.
+Module GT := BM.Gen.Transparent.
+Module GA := BM.Gen.Alloc.
 Open Scope N_scope.
 
 Theorem C13_ref_identity : forall p, wrap_ref p = Ret p.
@@ -22,9 +31,82 @@ Proof. exact conv_value_id. Qed.
 Theorem C13_counts_untouched : forall s, rc_step s HCast = s.
 Proof. exact rc_cast_noop. Qed.
 
+(* ---- the translated code ---- *)
+Theorem C13_gen_refs : forall ENV W I u p, TG.tw_contract W I ->
+  (valid_ref I p -> GT.wrap_ref ENV W I u u p = Ret p /\ GT.wrap_mut ENV W I u u p = Ret p) /\
+  (valid_ref W p -> GT.peel_ref ENV W I u u p = Ret p /\ GT.peel_mut ENV W I u u p = Ret p).
+Proof.
+  intros ENV W I u p HC. split; intros Hv; split.
+  - exact (TG.wrap_ref_id ENV W I u HC p Hv). - exact (TG.wrap_mut_id ENV W I u HC p Hv).
+  - exact (TG.peel_ref_id ENV W I u HC p Hv). - exact (TG.peel_mut_id ENV W I u HC p Hv).
+Qed.
+
+Theorem C13_gen_roundtrip_ref : forall ENV W I u p, TG.tw_contract W I ->
+  (valid_ref I p -> (q <- GT.wrap_ref ENV W I u u p ;; GT.peel_ref ENV W I u u q) = Ret p) /\
+  (valid_ref W p -> (q <- GT.peel_ref ENV W I u u p ;; GT.wrap_ref ENV W I u u q) = Ret p).
+Proof.
+  intros ENV W I u p HC. split; intros Hv.
+  - exact (TG.wrap_peel_ref ENV W I u HC p Hv). - exact (TG.peel_wrap_ref ENV W I u HC p Hv).
+Qed.
+
+Theorem C13_gen_slices : forall ENV W I s, TG.tw_contract W I ->
+  (valid_slice I s -> GT.wrap_slice ENV W I s = Ret s /\ GT.wrap_slice_mut ENV W I s = Ret s) /\
+  (valid_slice W s -> GT.peel_slice ENV W I s = Ret s /\ GT.peel_slice_mut ENV W I s = Ret s).
+Proof.
+  intros ENV W I s HC. split; intros Hv; split.
+  - exact (TG.wrap_slice_id ENV W I HC s Hv). - exact (TG.wrap_slice_mut_id ENV W I HC s Hv).
+  - exact (TG.peel_slice_id ENV W I HC s Hv). - exact (TG.peel_slice_mut_id ENV W I HC s Hv).
+Qed.
+
+Theorem C13_gen_values : forall ENV W I v, TG.tw_contract W I ->
+  (N.of_nat (List.length v) = sz I -> GT.wrap ENV W I v = Ret v) /\
+  (N.of_nat (List.length v) = sz W -> GT.peel ENV W I v = Ret v).
+Proof.
+  intros ENV W I v HC. split; intros Hl.
+  - exact (TG.wrap_id ENV W I HC v Hl). - exact (TG.peel_id ENV W I HC v Hl).
+Qed.
+
+Theorem C13_gen_containers : forall ENV W I u c,
+  GA.wrap_vec ENV W I c = Ret c /\ GA.peel_vec ENV W I c = Ret c /\
+  GA.wrap_box ENV W I u u c = Ret c /\ GA.peel_box ENV W I u u c = Ret c /\
+  GA.wrap_rc ENV W I u u c = Ret c /\ GA.peel_rc ENV W I u u c = Ret c /\
+  GA.wrap_arc ENV W I u u c = Ret c /\ GA.peel_arc ENV W I u u c = Ret c.
+Proof.
+  intros ENV W I u c.
+  exact (conj (TG.wrap_vec_id ENV W I c) (conj (TG.peel_vec_id ENV W I c)
+        (conj (TG.wrap_box_id ENV W I u c) (conj (TG.peel_box_id ENV W I u c)
+        (conj (TG.wrap_rc_id ENV W I u c) (conj (TG.peel_rc_id ENV W I u c)
+        (conj (TG.wrap_arc_id ENV W I u c) (TG.peel_arc_id ENV W I u c)))))))).
+Qed.
+
+Theorem C13_gen_guards : forall ENV W I uW uI p c s v,
+  (uW <> uI -> GT.wrap_ref ENV W I uW uI p = Panic W_assert /\ GT.peel_ref ENV W I uW uI p = Panic W_assert /\
+               GA.wrap_box ENV W I uW uI c = Panic W_assert /\ GA.peel_rc ENV W I uW uI c = Panic W_assert) /\
+  ((sz I <> sz W \/ al I <> al W) ->
+      GT.wrap_slice ENV W I s = Panic W_assert /\ GT.peel_slice ENV W I s = Panic W_assert /\
+      GT.wrap ENV W I v = Panic W_assert /\ GT.peel ENV W I v = Panic W_assert).
+Proof.
+  intros ENV W I uW uI p c s v. split; intros H.
+  - destruct (TG.ptr_guard_panics ENV W I uW uI p H) as (a & _ & b & _).
+    destruct (TG.cont_guard_panics ENV W I uW uI c H) as (d & _ & _ & e & _). auto.
+  - destruct (TG.slice_guard_panics ENV W I s H) as (a & b & _).
+    destruct (TG.value_guard_panics ENV W I v H) as (d & e). auto.
+Qed.
+
+Example C13_gen_nonvacuous :
+  TG.tw_contract (mkTy 4 4) (mkTy 4 4) /\ valid_ref (mkTy 4 4) (mkPtr 4096 4) /\
+  valid_slice (mkTy 4 4) (mkSlice (mkPtr 4096 12) 3) /\
+  GT.wrap_slice (mkEnv (fun _ => false) (fun _ => 0)) (mkTy 4 4) (mkTy 4 2) (mkSlice (mkPtr 4096 12) 3) = Panic W_assert.
+Proof. unfold TG.tw_contract, valid_ref, valid_slice; cbn. repeat split; try discriminate; try reflexivity; vm_compute; congruence. Qed.
 
 Print Assumptions C13_ref_identity.
 Print Assumptions C13_wrap_peel_ref.
 Print Assumptions C13_slice_identity.
 Print Assumptions C13_value_identity.
 Print Assumptions C13_counts_untouched.
+Print Assumptions C13_gen_refs.
+Print Assumptions C13_gen_roundtrip_ref.
+Print Assumptions C13_gen_slices.
+Print Assumptions C13_gen_values.
+Print Assumptions C13_gen_containers.
+Print Assumptions C13_gen_guards.
